@@ -179,6 +179,12 @@ shape!(NFirst, NFirstVec, NFirstSlice, NFirstSliceMut, NFirstRef, NFirstRefMut, 
 soa_struct!(clone, pub struct NFirstF { pub x: Tk<0>, pub y: B1, pub c: Tk<4> });
 shape!(NFirstF, NFirstFVec, NFirstFSlice, NFirstFSliceMut, NFirstFRef, NFirstFRefMut, NFirstFPtr, NFirstFPtrMut, drops=false, [(x leaf Tk<0>), (y leaf B1), (c leaf Tk<4>)]);
 
+// every field nested, the same nested type twice (a swap of the two nested columns type-checks); only zero-sized fields
+soa_struct!(clone, pub struct N2 { #[nested_soa] pub p: Inner, #[nested_soa] pub q: Inner });
+shape!(N2, N2Vec, N2Slice, N2SliceMut, N2Ref, N2RefMut, N2Ptr, N2PtrMut, drops=false, [(p nested Inner), (q nested Inner)]);
+soa_struct!(clone, pub struct ZZ { pub z1: Z, pub z2: Z });
+shape!(ZZ, ZZVec, ZZSlice, ZZSliceMut, ZZRef, ZZRefMut, ZZPtr, ZZPtrMut, drops=false, [(z1 leaf Z), (z2 leaf Z)]);
+
 soa_struct!(clone, pub struct NMid { pub a: Tk<4>, #[nested_soa] pub n: Inner, pub c: Tk<0> });
 shape!(NMid, NMidVec, NMidSlice, NMidSliceMut, NMidRef, NMidRefMut, NMidPtr, NMidPtrMut, drops=false, [(a leaf Tk<4>), (n nested Inner), (c leaf Tk<0>)]);
 soa_struct!(clone, pub struct NMidF { pub a: Tk<4>, pub x: Tk<0>, pub y: B1, pub c: Tk<0> });
